@@ -404,9 +404,10 @@ func MergeConfig(a, b *Config) *Config {
 		result.DisableCoordinates = true
 	}
 	if b.Tags != nil {
-		if result.Tags == nil {
-			result.Tags = make(map[string]string)
-		}
+		// The struct copy above shares a's tag map: merge into a fresh map
+		// so that the tags of a are left as they are
+		result.Tags = make(map[string]string, len(a.Tags)+len(b.Tags))
+		maps.Copy(result.Tags, a.Tags)
 		maps.Copy(result.Tags, b.Tags)
 	}
 	if b.BindAddr != "" {
@@ -514,6 +515,12 @@ func MergeConfig(a, b *Config) *Config {
 	}
 	if b.BroadcastTimeout != 0 {
 		result.BroadcastTimeout = b.BroadcastTimeout
+	}
+	if b.ValidateNodeNames {
+		result.ValidateNodeNames = true
+	}
+	if b.MsgpackUseNewTimeFormat {
+		result.MsgpackUseNewTimeFormat = true
 	}
 	result.EnableCompression = b.EnableCompression
 
